@@ -42,22 +42,29 @@ func envOr(k, d string) string {
 func main() {
 	simDir = filepath.Join(root, "sim")
 	binDir = filepath.Join(simDir, "bin")
-	workerBin = filepath.Join(binDir, "worker.test")
+	// one worker binary per orchestrator process: two checks running at the same time (against
+	// different trees, say) must never start each other's workers
+	workerBin = filepath.Join(binDir, fmt.Sprintf("worker-%d.test", os.Getpid()))
 	if len(os.Args) < 2 {
 		usage()
 	}
+	done := func(code int) {
+		os.Remove(workerBin)
+		os.Exit(code)
+	}
 	switch os.Args[1] {
 	case "check":
-		os.Exit(cmdCheck(os.Args[2:]))
+		done(cmdCheck(os.Args[2:]))
 	case "replay":
-		os.Exit(cmdReplay(os.Args[2:]))
+		done(cmdReplay(os.Args[2:]))
 	case "selftest":
-		os.Exit(cmdSelftest(os.Args[2:]))
+		done(cmdSelftest(os.Args[2:]))
 	case "one":
-		os.Exit(cmdOne(os.Args[2:]))
+		done(cmdOne(os.Args[2:]))
 	case "seq":
-		os.Exit(cmdSeq(os.Args[2:]))
+		done(cmdSeq(os.Args[2:]))
 	case "build":
+		workerBin = filepath.Join(binDir, "worker.test") // build only: checks that the worker compiles
 		if err := buildWorker(); err != nil {
 			fmt.Fprintln(os.Stderr, err)
 			os.Exit(2)
@@ -103,11 +110,14 @@ func buildWorker() error {
 		// the replace directive pointing there, given to the go command with -modfile
 		if b, err := os.ReadFile(filepath.Join(simDir, "go.mod")); err == nil {
 			alt := strings.Replace(string(b), "=> /repo", "=> "+repo, 1)
-			os.WriteFile(filepath.Join(simDir, "go.alt.mod"), []byte(alt), 0o644)
+			name := fmt.Sprintf("go.alt.%d", os.Getpid())
+			os.WriteFile(filepath.Join(simDir, name+".mod"), []byte(alt), 0o644)
 			if sum, err := os.ReadFile(filepath.Join(repo, "go.sum")); err == nil {
-				os.WriteFile(filepath.Join(simDir, "go.alt.sum"), sum, 0o644)
+				os.WriteFile(filepath.Join(simDir, name+".sum"), sum, 0o644)
 			}
-			args = append(args, "-modfile=go.alt.mod")
+			defer os.Remove(filepath.Join(simDir, name+".mod"))
+			defer os.Remove(filepath.Join(simDir, name+".sum"))
+			args = append(args, "-modfile="+name+".mod")
 		}
 	}
 	args = append(args, "./worker/")
